@@ -34,6 +34,7 @@ const CONFUSABLE: &[&[&str]] = &[
     &["ß", "ss", "SS", "ẞ"],
     &["", " ", "  ", "\u{a0}"],
     &["k10", "k9", "k09", "K10"],
+    &["9", "10", "5x", "1e1", "010", "2", "10x"],
 ];
 
 pub fn dict_program(rng: &mut Rng) -> (Program, usize) {
@@ -109,8 +110,29 @@ pub fn dict_program(rng: &mut Rng) -> (Program, usize) {
 pub struct Observation {
     pub parse: String,
     pub lint: String,
+    /// the same through the library's command-line layer (`rrss::cli::linter::run`, `rrss::cli::parser::run`):
+    /// what `rrss lint` / `rrss parse` print, rendered in this process
+    pub cli_layer: String,
     pub stdout: Vec<u8>,
     pub result: String,
+}
+
+fn cli_layer(src: &str) -> String {
+    let r = mon::guarded(|| {
+        let lint = match rrss::cli::linter::run(src) {
+            Ok(o) => format!("{}", o),
+            Err(e) => format!("ERR {}", e),
+        };
+        let parse = match rrss::cli::parser::run(src) {
+            Ok(o) => format!("{}", o),
+            Err(e) => format!("ERR {}", e),
+        };
+        format!("{}\u{1}{}", lint, parse)
+    });
+    match r {
+        Ok(s) => s,
+        Err(p) => format!("PANIC {}", p.signature()),
+    }
 }
 
 pub fn observe(src: &str, stdin: &[u8], ctx: &mut Ctx) -> Option<(Observation, Vec<Vec<String>>)> {
@@ -120,26 +142,27 @@ pub fn observe(src: &str, stdin: &[u8], ctx: &mut Ctx) -> Option<(Observation, V
 pub fn observe_opt(src: &str, stdin: &[u8], ctx: &mut Ctx, do_exec: bool) -> Option<(Observation, Vec<Vec<String>>)> {
     let parsed = mon::parse_guarded(src, 1000, true).ok()?;
     match parsed.result {
-        Err(e) => Some((Observation { parse: format!("ERR {}", e.text), lint: String::new(), stdout: vec![], result: String::new() }, vec![])),
+        Err(e) => Some((Observation { parse: format!("ERR {}", e.text), lint: String::new(), cli_layer: cli_layer(src), stdout: vec![], result: String::new() }, vec![])),
         Ok(prog) => {
             let parse = format!("{:?}", prog);
             let lint = match mon::lint_guarded(&prog, LintWhich::Standard) {
                 Ok(d) => format!("{:?}", d),
                 Err(p) => format!("PANIC {}", p.signature()),
             };
+            let cli_layer = cli_layer(src);
             if !do_exec {
-                return Some((Observation { parse, lint, stdout: vec![], result: String::new() }, vec![]));
+                return Some((Observation { parse, lint, cli_layer, stdout: vec![], result: String::new() }, vec![]));
             }
             let opts = ExecOpts { fuel: 50_000, log_events: false, log_dict: true, trap: true };
             match mon::exec_guarded(&prog, stdin, &opts) {
                 ExecOutcome::Done(run) => {
                     let orders: Vec<Vec<String>> = run.dict_orders.iter().map(|(_, k)| k.clone()).collect();
                     ctx.sites.absorb();
-                    Some((Observation { parse, lint, stdout: run.stdout, result: format!("{:?}", run.result) }, orders))
+                    Some((Observation { parse, lint, cli_layer, stdout: run.stdout, result: format!("{:?}", run.result) }, orders))
                 }
                 ExecOutcome::Panicked(p, out) => {
                     ctx.sites.absorb();
-                    Some((Observation { parse, lint, stdout: out, result: format!("PANIC {}", p.signature()) }, vec![]))
+                    Some((Observation { parse, lint, cli_layer, stdout: out, result: format!("PANIC {}", p.signature()) }, vec![]))
                 }
             }
         }
@@ -171,6 +194,8 @@ pub fn check_repeats(ctx: &mut Ctx, src: &str, stdin: &[u8], reps: usize, origin
                         "parse_tree"
                     } else if f.lint != obs.lint {
                         "lint_diagnostics"
+                    } else if f.cli_layer != obs.cli_layer {
+                        "lint_or_parse_output_of_the_cli_layer"
                     } else if f.stdout != obs.stdout {
                         "stdout"
                     } else {
